@@ -109,7 +109,12 @@ class Deployer : public Messenger {
   path user_data_sync_dir() const;
 
  private:
+  bool FinishWork();
+
   std::queue<of<DeploymentTask>> pending_tasks_;
+  // set by StartWork() when it starts a worker, cleared by the worker when it
+  // finds nothing left to do; guarded by mutex_ like pending_tasks_.
+  bool running_ = false;
   std::mutex mutex_;
   std::future<void> work_;
   bool maintenance_mode_ = false;
